@@ -6,6 +6,7 @@ pooled and reopened together.  One committed object in each database: P (main) a
 
     modP v | modS v | readP | readS       through the connection pair under test
     closeP                                 primary.close()
+    reset                                  ZODB.Connection.resetCaches() (between close and open)
     open                                   db_main.open(tm) again (+ get_connection('aux')), objects re-fetched
     commit | abort                         of the pair's transaction manager
     peekP | peekS                          committed value, read through an independent connection pair
@@ -82,6 +83,10 @@ class World2:
             elif t[0] == 'closeP':
                 self.conn.close()
                 r = 'ok'
+            elif t[0] == 'reset':
+                import ZODB.Connection
+                ZODB.Connection.resetCaches()       # pooled connections start with an empty cache when reopened
+                r = 'ok'
             elif t[0] == 'open':
                 c = self.db1.open(self.tm)
                 self.conn = c
@@ -140,8 +145,15 @@ def judge(case, real):
         res, vec = real[idx].split(' | ')
         t = op.split()
         k = t[0]
-        if closed and k not in ('open', 'peekP', 'peekS', 'commit', 'abort'):
+        if closed and k not in ('open', 'peekP', 'peekS', 'commit', 'abort', 'reset'):
             return ('taint', idx)
+        if k == 'reset':
+            if not closed:
+                return ('taint', idx)       # (only between close and open: the application drops its objects)
+            exp = 'ok'
+            if res != exp:
+                return (idx, sig(op, 'result'), 'op %r returned %r' % (op, res))
+            continue
         if k in ('modP', 'modS'):
             exp = 'ok'
             vis[k[-1]] = int(t[1])
@@ -211,7 +223,7 @@ def gen(rng, kind):
     size = rng.choice([5, 8, 12, 16])
     for _ in range(size):
         if closed:
-            ops.append(rng.choice(['open', 'open', 'peekP', 'peekS']))
+            ops.append(rng.choice(['open', 'open', 'peekP', 'peekS', 'reset', 'reset']))
             if ops[-1] == 'open':
                 closed = False
             continue
@@ -243,7 +255,14 @@ def gen(rng, kind):
             closed = not d
     if closed:
         ops.append('open')
-    ops += ['readP', 'readS', 'abort', 'closeP', 'open', 'readP', 'readS', 'peekP', 'peekS']
+    ops += ['readP', 'readS', 'abort', 'closeP']
+    if rng.random() < 0.5:
+        # ZODB.Connection.resetCaches() while closed; then changes through the reopened pair are undone by abort
+        ops += ['reset', 'open', 'mod%s %d' % (rng.choice('PS'), rng.randrange(1, 10)),
+                rng.choice(['abort', 'abort', 'commit']), 'readP', 'readS']
+    else:
+        ops += ['open', 'readP', 'readS']
+    ops += ['peekP', 'peekS']
     return dict(kind=kind, n=2, ops=ops, family='multidb')
 
 
